@@ -285,7 +285,7 @@ def run_config(cfg):
             goals.append(("equal-spacing-up-to-one-ulp", z3.And(sp)))
         for name, gl in goals:
             m = {}
-            if name.startswith("equal-spacing") and sb > 11 and cfg["size"] >= 4:
+            if name.startswith("equal-spacing") and cfg["size"] >= 4:
                 # division by 3+ on wide vectors: no head-room.  Spacing for every num is layer A's lemma;
                 # here it is attempted with a short budget and never counted.
                 m = dict(claimed=False, budget_s=20)
@@ -333,6 +333,129 @@ def code_obligations(rep, tier):
                 rep.add(core.smt(base + "/" + suffix, PROP, smt2, functions=fn, text=text, budget_s=m.get("budget_s", 120), meta=m, kind=m.get("kind", "vc"), claimed=m.get("claimed", True)))
             else:
                 rep.add(core.decided(base + "/" + suffix, PROP, ok, functions=fn, text=text, meta=m))
+
+
+# ------------------------------------------------------------------------------------------- D: products
+def product_obligations(rep):
+    """complex / pair / triple generators = Cartesian products of 1-D samples.  Modular: `real_samples` is replaced by
+    a recording stub (its own contract is layers A-C); every flag combination and bound form (None / scalar / tuple)
+    is enumerated; bounds are distinct sentinels that the code only passes on (parametricity)."""
+    import itertools as it
+
+    import functional_algorithms.utils as U
+
+    fn_names = ("utils.complex_samples", "utils.real_pair_samples", "utils.complex_pair_samples", "utils.real_triple_samples")
+    flags = ["include_infinity", "include_zero", "include_subnormal", "include_nan", "include_huge", "nonnegative"]
+    calls = []
+    counter = [0]
+
+    def stub(size=10, dtype=numpy.float32, **kw):
+        counter[0] += 1
+        calls.append(dict(size=size, dtype=dtype, **kw))
+        base = counter[0] * 100.0
+        # distinct markers, with a signed zero, an infinity and a nan among them
+        vals = [base + 1, base + 2, -0.0, numpy.inf, numpy.nan][: max(1, min(size, 5))]
+        return numpy.array(vals, dtype=dtype)
+
+    def run(name, **kw):
+        del calls[:]
+        counter[0] = 0
+        g = dict(U.__dict__)
+        g["real_samples"] = stub
+        import types as _t
+
+        for n in ("complex_samples", "real_pair_samples", "complex_pair_samples", "real_triple_samples", "_fix_limit_value"):
+            f = getattr(U, n)
+            g[n] = _t.FunctionType(f.__code__, g, n, f.__defaults__, f.__closure__)
+            g[n].__kwdefaults__ = f.__kwdefaults__
+        return g[name](**kw), [dict(c) for c in calls]
+
+    def bits(a):
+        a = numpy.asarray(a)
+        if a.dtype.kind == "c":
+            return list(zip(bits(a.real.ravel()), bits(a.imag.ravel())))
+        return [x.tobytes() for x in a.ravel()]
+
+    bad = {n: [] for n in fn_names}
+    n_cases = {n: 0 for n in fn_names}
+    flag_sets = [dict(zip(flags, v)) for v in it.product([True, False], repeat=len(flags))]
+    # every flag individually flipped from a base suffices to detect a swapped/dropped flag; all 64 combinations are cheap
+    for fl in flag_sets:
+        for dtype in (numpy.float32, numpy.float64):
+            # complex_samples
+            for bounds in (dict(), dict(min_real_value=1.5, max_real_value=2.5, min_imag_value=3.5, max_imag_value=4.5)):
+                n_cases["utils.complex_samples"] += 1
+                (out, cl) = run("complex_samples", size=(3, 4), dtype=dtype, **fl, **bounds)
+                exp = [dict(size=3, dtype=dtype, **fl, min_value=bounds.get("min_real_value"), max_value=bounds.get("max_real_value")), dict(size=4, dtype=dtype, **fl, min_value=bounds.get("min_imag_value"), max_value=bounds.get("max_imag_value"))]
+                if cl != exp:
+                    bad["utils.complex_samples"].append(("calls", fl, bounds, cl))
+                    continue
+                re_, im_ = stub(3, dtype), stub(4, dtype)
+                re_, im_ = numpy.array([101, 102, -0.0][:3], dtype=dtype), numpy.array([201, 202, -0.0, numpy.inf], dtype=dtype)
+                want = sorted((r.tobytes(), i.tobytes()) for r in re_ for i in im_)
+                got = sorted(bits(out))
+                if got != want or out.shape != (4, 3):
+                    bad["utils.complex_samples"].append(("product", str(dtype), "shape %s" % (out.shape,), [g for g in got if g not in want][:2]))
+        if fl != flag_sets[0] and fl != flag_sets[-1] and sum(fl.values()) not in (1, 5):
+            continue
+        dtype = numpy.float32
+        for form in ("none", "scalar", "tuple"):
+            def bnd(lo, hi, dims):
+                if form == "none":
+                    return None, None, (None,) * dims, (None,) * dims
+                if form == "scalar":
+                    return lo, hi, (lo,) * dims, (hi,) * dims
+                los = tuple(lo + 10 * k for k in range(dims))
+                his = tuple(hi + 10 * k for k in range(dims))
+                return los, his, los, his
+
+            # real_pair_samples
+            n_cases["utils.real_pair_samples"] += 1
+            lo, hi, los, his = bnd(1.5, 2.5, 2)
+            (out, cl) = run("real_pair_samples", size=(2, 3), dtype=dtype, **fl, min_value=lo, max_value=hi)
+            exp = [dict(size=(2, 3)[k], dtype=dtype, **fl, min_value=los[k], max_value=his[k]) for k in range(2)]
+            if cl != exp:
+                bad["utils.real_pair_samples"].append(("calls", form, cl))
+            else:
+                a, b = numpy.array([101, 102], dtype=dtype), numpy.array([201, 202, -0.0], dtype=dtype)
+                want = sorted((x.tobytes(), y.tobytes()) for x in a for y in b)
+                got = sorted(zip(bits(out[0]), bits(out[1])))
+                if got != want:
+                    bad["utils.real_pair_samples"].append(("product", form))
+            # real_triple_samples
+            n_cases["utils.real_triple_samples"] += 1
+            lo, hi, los, his = bnd(1.5, 2.5, 3)
+            (out, cl) = run("real_triple_samples", size=(2, 3, 2), dtype=dtype, **fl, min_value=lo, max_value=hi)
+            exp = [dict(size=(2, 3, 2)[k], dtype=dtype, **fl, min_value=los[k], max_value=his[k]) for k in range(3)]
+            if cl != exp:
+                bad["utils.real_triple_samples"].append(("calls", form, cl))
+            else:
+                a, b, c = numpy.array([101, 102], dtype=dtype), numpy.array([201, 202, -0.0], dtype=dtype), numpy.array([301, 302], dtype=dtype)
+                want = sorted((x.tobytes(), y.tobytes(), z.tobytes()) for x in a for y in b for z in c)
+                got = sorted(zip(bits(out[0]), bits(out[1]), bits(out[2])))
+                if got != want:
+                    bad["utils.real_triple_samples"].append(("product", form))
+            # complex_pair_samples
+            n_cases["utils.complex_pair_samples"] += 1
+            rlo, rhi, rlos, rhis = bnd(1.5, 2.5, 2)
+            ilo, ihi, ilos, ihis = bnd(3.5, 4.5, 2)
+            (out, cl) = run("complex_pair_samples", size=((2, 3), (2, 2)), dtype=dtype, **fl, min_real_value=rlo, max_real_value=rhi, min_imag_value=ilo, max_imag_value=ihi)
+            exp = []
+            for k in range(2):
+                exp.append(dict(size=((2, 3), (2, 2))[k][0], dtype=dtype, **fl, min_value=rlos[k], max_value=rhis[k]))
+                exp.append(dict(size=((2, 3), (2, 2))[k][1], dtype=dtype, **fl, min_value=ilos[k], max_value=ihis[k]))
+            if cl != exp:
+                bad["utils.complex_pair_samples"].append(("calls", form, [c for c, e in zip(cl, exp) if c != e][:1]))
+            else:
+                r1, i1 = numpy.array([101, 102], dtype=dtype), numpy.array([201, 202, -0.0], dtype=dtype)
+                r2, i2 = numpy.array([301, 302], dtype=dtype), numpy.array([401, 402], dtype=dtype)
+                want = sorted(((a.tobytes(), b.tobytes()), (c.tobytes(), d.tobytes())) for a in r1 for b in i1 for c in r2 for d in i2)
+                got = sorted(zip(bits(out[0]), bits(out[1])))
+                if got != want:
+                    bad["utils.complex_pair_samples"].append(("product", form))
+    for n in fn_names:
+        rep.under_contract(n, "calls real_samples with the operand's own size/bounds and unchanged flags; output is the Cartesian product, bit for bit")
+        rep.add(core.decided("C19/products/%s" % n.split(".")[1], PROP, not bad[n], functions=(n,), text="%d flag/bound-form cases: 1-D calls receive exactly the operand's parameters and the result is the Cartesian product of the returned 1-D arrays (bit patterns, signed zero / inf / nan included)" % n_cases[n], detail=dict(bad=[str(b)[:400] for b in bad[n][:3]], cases=n_cases[n]), meta=dict(products=n, bad=[str(b)[:300] for b in bad[n][:2]])))
 
 
 # ------------------------------------------------------------------------------------------- replay
@@ -396,6 +519,34 @@ def native_replay(o):
     return info
 
 
+def kernel_replay(o):
+    """evaluate the located comprehension natively at the model's (num, step) and test the clause in Python"""
+    import functional_algorithms.utils as U
+
+    m = o.model or {}
+    try:
+        num, step = m["num"]["value"], m["step"]["value"]
+    except Exception:
+        return dict(replayed=False, witness_class=None)
+    idx = int(o.id.split("/site")[1].split("/")[0])
+    node = find_kernels(inspect.getsource(U.real_samples))[idx]
+    if num * 1 > 200000:
+        return dict(replayed=False, witness_class="site%d" % idx, note="model too large to enumerate")
+    q = eval(compile(ast.Expression(node), "<kernel>", "eval"), {}, dict(num=num, step=step))
+    D = step // (num - 1) if num > 1 else None
+    bad = []
+    if len(q) != num:
+        bad.append("length %d != num %d" % (len(q), num))
+    if q and (q[0] != 0 or q[-1] != step):
+        bad.append("endpoints %s..%s, want 0..%s" % (q[0], q[-1], step))
+    if any(not (0 <= v <= step) for v in q):
+        bad.append("offset outside [0, step]")
+    ds = {b - a for a, b in zip(q, q[1:])}
+    if D is not None and not ds <= {D, D + 1}:
+        bad.append("spacing %s not within {%d, %d}" % (sorted(ds)[:4], D, D + 1))
+    return dict(replayed=bool(bad), num=num, step=step, offsets=q[:8], violations=bad, witness_class="site%d %s" % (idx, "; ".join(b.split(" ")[0] for b in bad)))
+
+
 def build(tier):
     rep = core.Report(PROP, tier)
     rep.trust("z3 5.1 (Int/NIA for the kernel lemmas, FP/BV for the code paths); cvc5 fallback", "E2 models of NumPy (see assumptions); ast-to-Int translation of the located comprehension (+,-,*,// over names and int constants)")
@@ -414,6 +565,7 @@ def build(tier):
     kernel_obligations(rep)
     plumbing_obligations(rep)
     code_obligations(rep, tier)
+    product_obligations(rep)
     k, n = z3.Ints("k n")
     s = z3.Solver()
     s.add(n >= 1, k >= 0, k <= n, (k * 7) / n > 7)
@@ -422,6 +574,8 @@ def build(tier):
     s.add(n >= 1, k >= 0, k <= n, (k * 7) / n == 3)
     rep.add(core.smt("C19/canary/reachable-offset", PROP, s, text="canary: some offset equals 3", expect="sat", kind="canary", budget_s=20))
     rep.replayers["C19/utils.real_samples/"] = native_replay
+    rep.replayers["C19/products/"] = lambda o: dict(replayed=bool((o.meta or {}).get("bad")), witness_class="%s %s" % ((o.meta or {}).get("products"), ((o.meta or {}).get("bad") or [""])[0][:80]), bad=(o.meta or {}).get("bad"))
+    rep.replayers["C19/kernel/"] = kernel_replay
     return rep
 
 
